@@ -27,6 +27,9 @@ REGISTRY = {
     "C20": ("vf.props.cli_family", "C20"),
     "C08": ("vf.props.env_family", "C08"),
     "C09": ("vf.props.env_family", "C09"),
+    "C13": ("vf.props.rebuild_family", "C13"),
+    "C14": ("vf.props.rebuild_family", "C14"),
+    "C19": ("vf.props.rebuild_family", "C19"),
 }
 
 
